@@ -152,6 +152,9 @@ impl Trace {
         serde_json::to_writer(&mut self.w, &v).unwrap();
         self.w.write_all(b"\n").unwrap();
         self.n += 1;
+        if self.n % 64 == 0 {
+            self.w.flush().unwrap(); // a crash of the code under test must not lose the trace
+        }
     }
     pub fn finish(mut self) -> usize {
         self.w.flush().unwrap();
